@@ -111,6 +111,15 @@ def predicates(docs):
 # ---------------------------------------------------------------------------
 # evaluator
 # ---------------------------------------------------------------------------
+def norm(v):
+    """container types are not part of the contract: list == tuple, bytearray == bytes"""
+    if isinstance(v, (list, tuple)):
+        return tuple(norm(x) for x in v)
+    if isinstance(v, (bytearray, memoryview)):
+        return bytes(v)
+    return v
+
+
 def compare_doc(got, spec, prev_table):
     """-> list of difference strings between a parsed MBXMLDocument and the harness document"""
     doc_id, tokens, cdt = spec
@@ -128,7 +137,7 @@ def compare_doc(got, spec, prev_table):
             continue
         if kind != R.NONE and not (kind == R.OPAQUE and flen == 0):
             want = R.expected_value(kind, value)
-            if part.value != want or type(part.value) is not type(want):
+            if norm(part.value) != want:
                 diffs.append(f"part {n} ({tid:#x}): value {part.value!r} != {want!r}")
         carried = [a.value for a in part.attributes if isinstance(a, MBXMLToken)]
         if carried != list(attrs):
@@ -548,7 +557,7 @@ def lookup_stage2(arg):
         return "token_id_differs", f"{b.hex()}: {p.token_id:#x} != {tid:#x}"
     name, kind, flen, attr_ids = R.table_for(doc_id)[tid]
     if kind != R.NONE and not (kind == R.OPAQUE and flen == 0):
-        if p.value != value:
+        if norm(p.value) != norm(value):
             return "value_differs", f"{b.hex()}: {p.value!r} != {value!r}"
     got_attrs = [a.value for a in p.attributes if isinstance(a, MBXMLToken)]
     if got_attrs != want_attrs:
